@@ -212,6 +212,22 @@ def Outcome.observed (o : Outcome I) (keep : Bool) : Except PyExc Bytes :=
 def readBody (c : Coding) (pieces : List Bytes) : Except PyExc Bytes :=
   (readBodyFrom I (setup I c) pieces).result
 
+/-- `_setup_decompressor(response)` seen as an update of the Stream object: the
+decoder is chosen from this response's Content-Encoding (`none` = header absent
+= `fields.get('Content-Encoding', '')`) in *every* branch, so whatever decoder
+an earlier response on the same Stream left behind is replaced. -/
+def setupDecompressor (_prev : Dec I) (enc : Option Str) : Dec I :=
+  setup I (codingOf (enc.getD []))
+
+/-- One Stream object reading a sequence of responses (Content-Encoding value,
+pieces of the body): the decoder state is carried in the object from one
+response to the next and `_setup_decompressor` runs at the start of each body. -/
+def readSeqFrom (d : Dec I) : List (Option Str × List Bytes) → List (Except PyExc Bytes)
+  | [] => []
+  | (enc, ps) :: rest =>
+    let o := readBodyFrom I (setupDecompressor I d enc) ps
+    o.result :: readSeqFrom o.final rest
+
 /-! ### the wrappers used on their own (`decompress`* then `flush`, zlib.error not converted) -/
 
 def gzipRunFrom (g : GzipSt I) : List Bytes → Except PyExc Bytes
